@@ -86,5 +86,19 @@ PROPS = {
         "assumptions": ["index invariant of callers (ib_rank built by build_ib_rank over the same words; bits past ib_len clear; < 2^32 interest bits; ib_len <= text.len())",
                         "JsonIndex<W> verified for W = Vec<u64> (the borrowed-storage instantiation runs the same text)"],
     },
+    "C12": {
+        "level": "proof",
+        "explanation": "Verus proves on the extracted text of LineIndex::{to_line_column, walk_forward_from, line_start, to_offset} that for "
+                       "every argument and for EVERY cache content satisfying the cache invariant the answer is the table lookup the naive "
+                       "scan defines, and that every value written to the cache satisfies the invariant; all finite query histories follow by "
+                       "induction (the postcondition does not mention the cache). The round trip is a lemma over the two contracts. "
+                       "line_break_len is proved complete by Kani. LineIndex::build (start list == naive line starts) is covered by a bounded "
+                       "Kani twin only.",
+        "trusted_base": COMMON_TRUST + ["Verus 0.2026.09.13 + Z3", "InvCell model of core::cell::Cell (a Cell holds what was last stored)",
+                                        "EliasFano::{get,predecessor,len,build} contracts (C03)"],
+        "assumptions": ["offset < usize::MAX for to_line_column (for offset == usize::MAX and a line start of 0 the naive column "
+                        "offset - start + 1 is not representable)",
+                        "LineIndex::build: bounded evidence only (all texts of 5 bytes over {LF,CR,'a'})"],
+    },
 }
 FIX_COMMITS = ["2cec8d3"]
